@@ -883,6 +883,13 @@ class InstanceWriteProvider(BaseProvider):
                         "reference properties of association instances",
                         prop.name, path, path.host))
 
+        if path.namespace is None:
+            raise CIMError(
+                CIM_ERR_INVALID_PARAMETER,
+                _format("Reference property {0!A} association "
+                        "end point {1!A} does not specify a namespace",
+                        prop.name, path))
+
         if not self.validate_instance_exists(path):
             raise CIMError(
                 CIM_ERR_INVALID_PARAMETER,
